@@ -1408,23 +1408,24 @@ def determinism_scope(res, pid, rng, tier):
                           "cfg": cfg.describe(), "input_line": text.split("\n")[k], "first": la[k], "second": lb[k]})
     # no salt: the generated salt is reported and reproduces the output
     from .jun_checks import ref_encrypt
-    with fa.LogCap() as lc:
-        obj = FileAnonymizer(anon_pwd=True, anon_ip=True, sensitive_words=["sea"], as_numbers=["65001"])
-    text = ("ip address 11.22.33.44 255.255.255.0\nhostname sea1\n" + "".join(render(h) for h in gen_history(rng, 12))
-            + 'set system login user admin authentication encrypted-password "%s"\n secret "%s"\n' % (L.gen_secret(rng, "md5"), ref_encrypt("reproduceMe", "Q"))
-            + "router bgp 65001\n neighbor 2001:db8::1 remote-as 65001\n")
-    o1 = _run(obj, text)
-    m = [re.search(r'"([^"]*)"', msg) for lv, msg in lc.records if lv == "WARNING" and "salt" in msg.lower()]
-    res.evaluations += 1
-    if not m or not m[0]:
-        fails.append({"kind": "no salt supplied: the generated salt is not reported at WARNING level", "records": lc.records})
-    else:
-        o2 = _run(FileAnonymizer(anon_pwd=True, anon_ip=True, sensitive_words=["sea"], as_numbers=["65001"], salt=m[0].group(1)), text)
-        if o1 != o2:
-            la, lb = o1.split("\n"), o2.split("\n")
-            k = next((i for i, (x, y) in enumerate(zip(la, lb)) if x != y), 0)
-            fails.append({"kind": "re-running with the reported salt does not reproduce the output", "reported_salt": m[0].group(1),
-                          "input_line": text.split("\n")[k], "first_run": la[k], "rerun": lb[k]})
+    for _rep in range(3):          # (three generated salts: a defect that depends on the salt's first character is not missed by chance)
+        with fa.LogCap() as lc:
+            obj = FileAnonymizer(anon_pwd=True, anon_ip=True, sensitive_words=["sea"], as_numbers=["65001"])
+        text = ("ip address 11.22.33.44 255.255.255.0\nhostname sea1\n" + "".join(render(h) for h in gen_history(rng, 12))
+                + 'set system login user admin authentication encrypted-password "%s"\n secret "%s"\n' % (L.gen_secret(rng, "md5"), ref_encrypt("reproduceMe", "Q"))
+                + "router bgp 65001\n neighbor 2001:db8::1 remote-as 65001\n")
+        o1 = _run(obj, text)
+        m = [re.search(r'"([^"]*)"', msg) for lv, msg in lc.records if lv == "WARNING" and "salt" in msg.lower()]
+        res.evaluations += 1
+        if not m or not m[0]:
+            fails.append({"kind": "no salt supplied: the generated salt is not reported at WARNING level", "records": lc.records})
+        else:
+            o2 = _run(FileAnonymizer(anon_pwd=True, anon_ip=True, sensitive_words=["sea"], as_numbers=["65001"], salt=m[0].group(1)), text)
+            if o1 != o2:
+                la, lb = o1.split("\n"), o2.split("\n")
+                k = next((i for i, (x, y) in enumerate(zip(la, lb)) if x != y), 0)
+                fails.append({"kind": "re-running with the reported salt does not reproduce the output", "reported_salt": m[0].group(1),
+                              "input_line": text.split("\n")[k], "first_run": la[k], "rerun": lb[k]})
     # the same option objects handed to several anonymizers (library use): later ones behave like a fresh process' would
     shared_p, shared_n, shared_w, shared_r = ["10.0.0.0/8", "128.0.0.0/2"], ["44.1.0.0/16"], ["sea", "lax"], ["Seattle"]
     ftext = "ip address 44.1.2.3\nip address 44.9.2.3\nip address 130.5.6.7\nip address 10.200.1.1\nhostname sea-lax Seattle\n"
